@@ -10,7 +10,7 @@ from . import common, l1, loopgen
 PROP = "C15"
 LEANCHECK_MODULES = ["Ivy.L1.Select", "Ivy.Props.C15"]
 MONS = ["C01", "C02", "C03", "C04", "C06", "C07", "C07spin", "C07idle"]
-SANS = ["heap-use-after-free", "heap-buffer-overflow", "SEGV", "double-free", "runtime error", "abort", "attempting free"]
+SANS = ["heap-use-after-free", "heap-buffer-overflow", "SEGV", "null-call", "double-free", "runtime error", "abort", "attempting free"]
 FACILITIES = {
     None: [[], ["nopwait2"], ["pwait2eperm"], ["notimerfd"], ["noepollcreate1"], ["noeventfd2"], ["noeventfd"], ["nopwait2", "notimerfd", "noeventfd"]],
     "epoll-timerfd": [[], ["nopwait2"], ["pwait2eperm"], ["noepollcreate1"], ["noeventfd"]],
